@@ -201,7 +201,7 @@ static std::string gen_sup(vj::Rng& r) {
     case 28: { W w = ev("minmax"); w.kv("sg", r.chance(1, 2)); wbytes(w, "a", rnd_word(r, bits), bits / 8); wbytes(w, "b", rnd_word(r, bits), bits / 8); wbytes(w, "c", rnd_word(r, bits), bits / 8); return fin(w); }
     case 29: case 30: { W w = ev("align"); uint64_t v = rnd_word(r, bits); wbytes(w, "a", v, bits / 8); w.kv("n", r.below(bits < 16 ? bits : 16)); return fin(w); }
     case 31: case 32: case 33: case 34: case 35: { static const char* fs[] = { "add_overflow", "sub_overflow", "mul_overflow", "madd_overflow", "mul_overflow" }; W w = ev(fs[k - 31]); w.kv("sg", r.chance(1, 2));
-      auto ar = [&]() { uint64_t v = rnd_word(r, bits); if (r.chance(1, 3)) v = r.below(300); if (r.chance(1, 6)) v = uint64_t(-int64_t(r.below(300))); if (r.chance(1, 6)) { unsigned h = bits / 2; v = (uint64_t(1) << h) + r.below(5) - 2; } return v; };
+      auto ar = [&]() { uint64_t v = rnd_word(r, bits); uint64_t mx = bits == 64 ? ~uint64_t(0) : ((uint64_t(1) << bits) - 1); if (r.chance(1, 4)) return (uint64_t[]){ 0, 0, 1, 2, mx, mx - 1, mx >> 1, (mx >> 1) + 1, (mx >> 1) + 2 }[r.below(9)]; if (r.chance(1, 3)) v = r.below(300); if (r.chance(1, 6)) v = uint64_t(-int64_t(r.below(300))); if (r.chance(1, 6)) { unsigned h = bits / 2; v = (uint64_t(1) << h) + r.below(5) - 2; } return v; };
       wbytes(w, "a", ar(), bits / 8); wbytes(w, "b", ar(), bits / 8); wbytes(w, "c", ar(), bits / 8); w.kv("of0", r.chance(1, 5) ? 1 : 0); return fin(w); }
     case 36: case 37: { W w = ev(k == 36 ? "load" : "store"); w.kv("sg", r.chance(1, 2)); bool al = r.chance(1, 2); w.kv("bo", (const char*[]){ "le", "be", "native" }[r.below(3)]).kv("al", al);
       w.kv("n", al ? uint32_t(r.below(2) * 8) : uint32_t(r.below(16))); uint8_t mem[24]; for (auto& x : mem) x = uint8_t(r.next()); w.bytes("mem", mem, 24); wbytes(w, "a", rnd_word(r, bits), bits / 8); return fin(w); }
